@@ -1,5 +1,7 @@
 
 #include "ranges.h"
+
+#include <climits>
 #include "../error.h"
 
 #include <cmath>
@@ -345,7 +347,7 @@ void Ranges::appendUnique(long start, long end, long step) {
     // 1-100x1 and we are appending 50-150x1. Should be easy
     // enough to just know we can Append(101,150,1)
 
-    for ( ; pred(subEnd, end); subEnd += step ) {
+    while ( pred(subEnd, end) ) {
 
         if (!contains(subEnd)) {
             // Is a unique value in the range
@@ -354,19 +356,20 @@ void Ranges::appendUnique(long start, long end, long step) {
                 subStart = last;
             }
             pending++;
-            continue;
+
+        } else if (pending != 0) {
+            // Current value is already in range.
+            // Add previous values
+            append(subStart, last, subStep);
+            pending = 0;
         }
 
-        if (pending == 0) {
-            // Nothing to add yet
-            continue;
+        // The counter may not run past the limits of long when the
+        // range ends at LONG_MAX (or LONG_MIN): the loop would never end
+        if (step > 0 ? subEnd > LONG_MAX - step : subEnd < LONG_MIN - step) {
+            break;
         }
-
-        // Current value is already in range.
-        // Add previous values
-        append(subStart, last, subStep);
-        subStart = subEnd + step;
-        pending = 0;
+        subEnd += step;
     }
 
     // Flush the remaining values
